@@ -302,6 +302,7 @@ type plan struct {
 	Signal    bool `json:"signal"`     // instead of exiting with status 1, die from SIGKILL (OOM killer, kill -9)
 	Sync      bool `json:"sync"`       // report every chunk boundary and wait for permission
 	PassUntil int  `json:"pass_until"` // boundaries below this one are passed without waiting
+	Quiet     bool `json:"quiet"`      // ignore errors of write(2) on stdout and exit 0 all the same (as `go tool objdump` does)
 }
 
 func fakeGo() {
@@ -346,7 +347,7 @@ func fakeGo() {
 			os.Exit(1)
 		}
 		lo, hi := i*len(listing)/p.Chunks, (i+1)*len(listing)/p.Chunks
-		if _, err := os.Stdout.Write(listing[lo:hi]); err != nil {
+		if _, err := os.Stdout.Write(listing[lo:hi]); err != nil && !p.Quiet {
 			os.Exit(68)
 		}
 	}
